@@ -610,3 +610,349 @@ def sx_expr(e):
 
 def dbits(x):
     return "%016x" % struct.unpack(">Q", struct.pack(">d", x))[0]
+
+
+# ------------------------------------------------------------------------------------------------
+# documents with an internal DTD subset + expressions around id()  (C02 id stream)
+#
+# A separate stream with its own random.Random: nothing above draws differently because of it.
+# The generator KNOWS the declared attribute types (they are never parsed back from the library):
+#   decl = {element qname: [(attribute qname, type, default-kind, default-value|None), ...]}   (declaration order)
+#   type in ID IDREF IDREFS CDATA NMTOKEN NMTOKENS ENUM ; default-kind in IMPLIED REQUIRED DEFAULT FIXED
+# An XML processor that has read the declarations (validating or not) normalises the values of
+# non-CDATA attributes (XML 1.0 section 3.3.3: leading/trailing spaces dropped, runs of #x20 collapsed) and
+# supplies defaulted attributes; `effective_tree` mirrors exactly that, so the Python node table and the
+# library's tree agree (defaulted attributes after the specified ones, in declaration order).
+# TAB/LF/CR are never put into values of non-CDATA attributes (how a parser treats character
+# references to them during tokenised-type normalisation is Xerces' business, which is trusted here).
+
+ID_EL_NAMES = ["a", "b", "c", "sec", "p:a", "d"]
+ID_ATTR_POOL = ["id", "sid", "ref", "refs", "x", "n", "p:z", "p:id", "to"]
+ID_VALUES = ["s1", "s2", "s3", "a", "b", "c", "x-1", "_z", "12", "1", "true", "A", "s10"]
+ID_ENUM = ["x", "y", "s1", "a"]
+
+
+def _id_typestr(t):
+    return "(%s)" % "|".join(ID_ENUM) if t == "ENUM" else t
+
+
+def dtd_text(root, decl):
+    out = ["<!DOCTYPE %s [" % root]
+    for el, ats in decl.items():
+        if not ats:
+            continue
+        out.append("<!ATTLIST %s" % el)
+        for a, t, dk, dv in ats:
+            dflt = {"IMPLIED": "#IMPLIED", "REQUIRED": "#REQUIRED", "DEFAULT": '"%s"' % dv, "FIXED": '#FIXED "%s"' % dv}[dk]
+            out.append("  %s %s %s" % (a, _id_typestr(t), dflt))
+        out.append(">")
+    out.append("]>")
+    return "\n".join(out)
+
+
+def norm_tokenized(v):
+    """XML 1.0 3.3.3 for attributes whose declared type is not CDATA"""
+    return " ".join(x for x in v.split(" ") if x)
+
+
+def gen_id_decl(r):
+    decl = {}
+    for el in ID_EL_NAMES:
+        if el == "d" or r.random() < 0.1:
+            decl[el] = []            # this element type has no ATTLIST at all
+            continue
+        # at most one ID attribute per element type (XML validity; with two the "unique ID" of XPath 5.2.1 is ambiguous)
+        idname = r.choice(["id", "sid", "sid", "p:id", None, "id"])
+        ats = []
+        if idname:
+            ats.append((idname, "ID", r.choice(["IMPLIED", "IMPLIED", "REQUIRED"]), None))
+        others = [a for a in ID_ATTR_POOL if a != idname]
+        r.shuffle(others)
+        for a in others[:r.randrange(1, 6)]:
+            if a == "id":
+                t = r.choice(["IDREF", "CDATA", "NMTOKEN", "IDREFS"])      # an attribute NAMED id that is not an ID
+            elif a in ("ref", "to"):
+                t = r.choice(["IDREF", "IDREF", "IDREF", "IDREFS", "CDATA"])
+            elif a == "refs":
+                t = r.choice(["IDREFS", "IDREFS", "NMTOKENS", "CDATA"])
+            else:
+                t = r.choice(["IDREF", "IDREFS", "CDATA", "CDATA", "NMTOKEN", "NMTOKENS", "ENUM"])
+            k = r.random()
+            if k < 0.75:
+                dk, dv = "IMPLIED", None
+            else:
+                dk = "DEFAULT" if k < 0.9 else "FIXED"
+                if t == "ENUM":
+                    dv = r.choice(ID_ENUM)
+                elif t in ("IDREFS", "NMTOKENS"):
+                    dv = " ".join(r.choice(ID_VALUES) for _ in range(r.choice([1, 2])))
+                else:
+                    dv = r.choice(ID_VALUES)
+            ats.append((a, t, dk, dv))
+        r.shuffle(ats)
+        decl[el] = ats
+    return decl
+
+
+def _id_value(r, t, state):
+    """an attribute value as WRITTEN in the document for declared type t (None = undeclared)"""
+    used, allow_dup = state["used"], state["dup"]
+    pad = lambda s: (r.choice(["", "", "", " ", "  "]) + s + r.choice(["", "", "", " ", "   "]))
+    anyid = lambda: r.choice(ID_VALUES + ["nope"]) if r.random() < 0.9 else r.choice(["S1", "s", "s1x"])
+    if t == "ID":
+        fresh = [v for v in ID_VALUES if v not in used]
+        if fresh and not (allow_dup and used and r.random() < 0.3):
+            v = r.choice(fresh)
+        elif allow_dup and used:
+            v = r.choice(sorted(used))
+        else:
+            return None
+        used.add(v)
+        return pad(v) if r.random() < 0.3 else v
+    if t in ("IDREF", "NMTOKEN"):
+        return pad(anyid())
+    if t in ("IDREFS", "NMTOKENS"):
+        return pad(r.choice([" ", " ", "  ", "    "]).join(anyid() for _ in range(r.choice([1, 2, 2, 3, 4]))))
+    if t == "ENUM":
+        return r.choice(ID_ENUM)
+    # CDATA / undeclared: nothing is normalised, any white space survives
+    k = r.random()
+    if k < 0.5:
+        return anyid()
+    if k < 0.8:
+        return r.choice(["", " ", "\t"]) + r.choice([" ", "  ", "\t", "\n", " \r\n"]).join(anyid() for _ in range(r.choice([1, 2, 3]))) + r.choice(["", " ", "\n"])
+    return r.choice(["1", "2", "", "x y", "ab"])
+
+
+def gen_id_tree(r, decl, depth, maxch, state):
+    name = r.choice(ID_EL_NAMES)
+    ats = {a: (t, dk) for a, t, dk, _ in decl.get(name, [])}
+    attrs, used = [], set()
+    idattr = [a for a, (t, _) in ats.items() if t == "ID"]
+    cand = []
+    if idattr and r.random() < 0.75:
+        cand.append(idattr[0])
+    for _ in range(r.choice([0, 1, 1, 2, 2, 3])):
+        cand.append(r.choice(list(ats) + ["id", "sid", "x", "ref"]) if ats else r.choice(["id", "sid", "x", "ref", "refs"]))
+    r.shuffle(cand)
+    for a in cand:
+        if a in used:
+            continue
+        used.add(a)
+        v = _id_value(r, ats.get(a, (None, None))[0], state)
+        if v is not None:
+            attrs.append((a, v))
+    children = []
+    if depth > 0:
+        last_text = False
+        for _ in range(r.randrange(0, maxch + 1)):
+            k = r.random()
+            if k < 0.65:
+                children.append(gen_id_tree(r, decl, depth - 1, maxch, state))
+                last_text = False
+            elif k < 0.9:
+                if not last_text:
+                    toks = [r.choice(ID_VALUES + ["nope"]) for _ in range(r.choice([1, 1, 2, 3]))]
+                    children.append(("t", r.choice(["", "", " ", "\n "]) + r.choice([" ", "  ", "\t", "\n", "\r\n "]).join(toks) + r.choice(["", "", " ", "\n"])))
+                    last_text = True
+            elif k < 0.95:
+                children.append(("c", r.choice(["s1", "note"])))
+                last_text = False
+            else:
+                children.append(("p", "pi", r.choice(["s1", "s2 s3"])))
+                last_text = False
+    return ("e", name, attrs, children)
+
+
+def effective_tree(t, decl):
+    """the tree an XML processor reports for the written tree t under the declarations decl"""
+    if t[0] != "e":
+        return t
+    ats = decl.get(t[1], [])
+    types = {}
+    for a, ty, dk, dv in ats:
+        types.setdefault(a, ty)
+    attrs = [(a, v if types.get(a, "CDATA") == "CDATA" else norm_tokenized(v)) for a, v in t[2]]
+    have = {a for a, _ in attrs}
+    seen = set()
+    for a, ty, dk, dv in ats:
+        if a in seen:
+            continue
+        seen.add(a)
+        if dk in ("DEFAULT", "FIXED") and a not in have:
+            attrs.append((a, dv if ty == "CDATA" else norm_tokenized(dv)))
+    return ("e", t[1], attrs, [effective_tree(c, decl) for c in t[3]])
+
+
+def gen_id_doc(r, size="small"):
+    """returns {"written": top as serialised, "top": effective top (what the parser reports), "dtd": text,
+                "decl": decl, "dup": whether duplicate ID values were allowed}"""
+    decl = gen_id_decl(r)
+    state = {"used": set(), "dup": r.random() < 0.2}
+    depth, maxch = (3, 3) if size == "small" else (4, 4)
+    root = None
+    for _ in range(6):
+        root = gen_id_tree(r, decl, depth, maxch, state)
+        if len(doc_tokens([root]).split()) >= 12:
+            break
+        state["used"].clear()
+    state["used"] = set()
+    # re-walk is not needed for uniqueness: `used` only steers the choice; uniqueness is what the reference measures
+    root = ("e", root[1], [("xmlns:p", "urn:p")] + root[2], root[3])
+    top = []
+    if r.random() < 0.1:
+        top.append(("c", "s1"))
+    top.append(root)
+    return {"written": top, "top": [effective_tree(t, decl) for t in top], "dtd": dtd_text(root[1], decl), "decl": decl, "dup": state["dup"]}
+
+
+def id_table(nodes, decl):
+    """XPath 1.0 section 5.2.1: the unique ID of an element is the value of its attribute declared of type ID;
+    of two elements reported with the same ID the second in document order has none.  value -> element id"""
+    table = {}
+    for n in nodes:
+        if n.kind != "elem":
+            continue
+        types = {}
+        for a, ty, dk, dv in decl.get(n.qname, []):
+            types.setdefault(a, ty)
+        for a in n.attrs:
+            if a.kind == "attr" and types.get(a.qname) == "ID":
+                table.setdefault(a.value, n.id)
+    return table
+
+
+class IdExprGen:
+    """expressions around the core function id() (XPath 1.0 section 4.1), over a gen_id_doc document"""
+
+    def __init__(self, r, nodes, table, variables=None):
+        self.r, self.nodes, self.table = r, nodes, table
+        self.vars = variables or {}
+        self.known = sorted(table) or ["s1"]
+        self.g = ExprGen(r, nodes=nodes, depth=1, variables=self.vars)
+
+    def idv(self):
+        r = self.r
+        k = r.random()
+        if k < 0.7:
+            return r.choice(self.known)
+        if k < 0.9:
+            return r.choice(ID_VALUES + ["nope"])
+        return r.choice(["S1", "s", "s1x", "nope", "é"])
+
+    def idstring(self, n=None):
+        r = self.r
+        n = r.choice([1, 1, 2, 2, 3, 4]) if n is None else n
+        seps = [" ", " ", "  ", "\t", "\n", "\r", " \t\n", "\r\n"]
+        s = r.choice(["", "", "", " ", "\n", "\t "])
+        toks = [self.idv() for _ in range(n)]
+        if n > 1 and r.random() < 0.25:
+            toks.append(toks[0])         # a repeated token
+        for i, t in enumerate(toks):
+            s += t + (r.choice(seps) if i + 1 < len(toks) else "")
+        return s + r.choice(["", "", "", " ", "\n", " \t"])
+
+    def attr_path(self, absolute=True):
+        r = self.r
+        a = r.choice(["ref", "refs", "id", "sid", "to", "x", "n", None])
+        test = ("name", None, a)
+        if r.random() < 0.1:
+            test = ("name", "urn:p", r.choice(["id", "z"]))
+        if absolute:
+            return ("path", None, [], [("root", "root", []), ("descendant-or-self", "node", []), ("attribute", test, [])])
+        return ("path", None, [], [("attribute", test, [])])
+
+    def el(self, name=None):
+        r = self.r
+        name = name or r.choice(["a", "b", "c", "sec", "d", None])
+        return ("path", None, [], [("root", "root", []), ("descendant-or-self", "node", []), ("child", ("name", None, name), [])])
+
+    def fid(self, arg):
+        return ("fn", "id", [arg])
+
+    def lit_id(self, n=None):
+        return self.fid(("lit", self.idstring(n)))
+
+    def nodeset_id(self, d=1):
+        """an id() call delivering a node-set, from every argument shape"""
+        r = self.r
+        k = r.random()
+        if k < 0.3:
+            return self.lit_id()
+        if k < 0.45:
+            return self.fid(self.attr_path(True))
+        if k < 0.55:
+            return self.fid(self.attr_path(False))
+        if k < 0.62 and d > 0:
+            return self.fid(("path", self.nodeset_id(d - 1), [], [("attribute", ("name", None, r.choice(["ref", "refs", "to", None])), [])]))
+        if k < 0.68:
+            return self.fid(("path", None, [], [("self", "node", [])]))          # id(.)
+        if k < 0.74:
+            return self.fid(r.choice([self.el(), ("path", None, [], [("root", "root", []), ("descendant", "text", [])]),
+                                      ("path", None, [], [("child", "text", [])]), ("path", None, [], [("child", ("name", None, None), [])])]))
+        if k < 0.80:
+            return self.fid(r.choice([("num", r.choice(["12", "1", "1.0", "012", "2"])), ("plus", ("num", "1"), ("num", "11")),
+                                      ("fn", "string", [("num", "12")]), ("fn", "true", []), ("fn", "false", []),
+                                      ("fn", "concat", [("lit", self.idv()), ("lit", r.choice([" ", "\t", ""])), ("lit", self.idv())]),
+                                      ("fn", "normalize-space", [("lit", self.idstring())]),
+                                      ("fn", "string", [self.attr_path(True)]), ("mult", ("num", "1"), ("lit", "x"))]))
+        if k < 0.86 and self.vars:
+            vs = [n for n, (t, _) in self.vars.items() if t in ("nodes", "str")]
+            return self.fid(("var", r.choice(vs)))
+        if k < 0.93:
+            return self.fid(self.g.gen(r.choice(["nodes", "nodes", "str", "any"]), 1))
+        return self.fid(("union", [self.attr_path(True), self.el()]))
+
+    def gen(self):
+        r = self.r
+        k = r.random()
+        idn = self.nodeset_id()
+        if k < 0.2:
+            return idn
+        if k < 0.3:      # as the start of a path
+            steps = r.choice([[("child", ("name", None, None), [])], [("attribute", ("name", None, None), [])], [("parent", "node", [])],
+                              [("descendant-or-self", "node", []), ("child", "text", [])], [("following-sibling", ("name", None, None), [])],
+                              [("child", ("name", None, r.choice(["a", "sec", "b"])), [])], [("ancestor-or-self", ("name", None, None), [])]])
+            return ("path", idn, [], steps)
+        if k < 0.42:     # positional use: the result is in document order, not argument order
+            toks = list(self.known)
+            r.shuffle(toks)
+            toks = toks[:r.choice([2, 3, 3, 4])]
+            if r.random() < 0.5:
+                toks = sorted(toks, key=lambda v: -self.table.get(v, 0))     # reverse document order
+            base = self.fid(("lit", " ".join(toks))) if r.random() < 0.7 else idn
+            pe = r.choice([("num", "1"), ("num", "2"), ("fn", "last", []), ("eq", ("fn", "position", []), ("num", "2")),
+                           ("lt", ("fn", "position", []), ("fn", "last", [])), ("num", "3")])
+            e = ("path", base, [(has_pos(pe), pe)], [])
+            if r.random() < 0.4:
+                return ("fn", r.choice(["name", "string", "local-name"]), [e])
+            return e
+        if k < 0.5:      # in a predicate
+            inner = r.choice([self.fid(self.attr_path(False)), self.fid(("path", None, [], [("self", "node", [])])), self.lit_id(1)])
+            pe = r.choice([inner, ("gt", ("fn", "count", [inner]), ("num", r.choice(["0", "1"]))),
+                           ("eq", ("fn", "count", [("union", [inner, ("path", None, [], [("self", "node", [])])])]), ("num", "1")),
+                           ("fn", "not", [inner]), ("eq", inner, ("lit", self.idv()))])
+            return ("path", None, [], [("root", "root", []), ("descendant-or-self", "node", []), ("child", ("name", None, None), [(has_pos(pe), pe)])])
+        if k < 0.58:     # filter on the id() result
+            pe = r.choice([("path", None, [], [("attribute", ("name", None, r.choice(["x", "ref", "id", "sid"])), [])]),
+                           ("eq", ("path", None, [], [("attribute", ("name", None, r.choice(["id", "sid"])), [])]), ("lit", self.idv())),
+                           ("fn", "not", [("path", None, [], [("child", ("name", None, None), [])])])])
+            return ("path", idn, [(False, pe)], [])
+        if k < 0.68:     # union with something else
+            other = r.choice([self.el(), self.nodeset_id(0), self.attr_path(True), ("path", None, [], [("self", "node", [])])])
+            ops = [idn, other]
+            r.shuffle(ops)
+            return ("union", ops)
+        if k < 0.76:
+            return ("fn", "count", [idn])
+        if k < 0.84:     # generate-id-free identity comparisons
+            v = self.idv()
+            a = self.fid(("lit", v))
+            attr = r.choice(["id", "sid", "sid", "ref"])
+            sel = ("path", None, [], [("root", "root", []), ("descendant-or-self", "node", []),
+                                      ("child", ("name", None, r.choice([None, "sec", "a"])), [(False, ("eq", ("path", None, [], [("attribute", ("name", None, attr), [])]), ("lit", v)))])])
+            return (r.choice(["eq", "lte", "gt"]), ("fn", "count", [("union", [a, sel])]), ("num", r.choice(["1", "1", "2", "0"])))
+        if k < 0.92:
+            return ("fn", r.choice(["name", "local-name", "string", "namespace-uri", "boolean", "not", "string-length", "number", "sum"]), [idn])
+        # comparisons of an id() node-set with strings / other node-sets
+        return (r.choice(["eq", "ne", "lt"]), idn, r.choice([("lit", self.idv()), self.attr_path(True), ("num", "12"), self.nodeset_id(0)]))
